@@ -35,7 +35,19 @@ def _strategy_kl(shapes):
         same = draw(st.sampled_from([False, False, False, True])) and Rp == Rq
         p = draw(gen.measure_params("pdf", Rp, D, kappa, extreme=True))
         q = p if same else draw(gen.measure_params("pdf", Rq, D, kappa, extreme=True))
-        return {"D": D, "Rp": Rp, "Rq": Rq, "same": same, "p": p, "q": q, "diag": draw(st.booleans())}
+        # far-mean regime: both densities live 1e4 / 1e6 standard deviations away from the origin and close to each other
+        # (time stamps, absolute positions); KL and entropy do not depend on the common offset
+        far = draw(st.sampled_from([0.0, 0.0, 0.0, 1e4, 1e6]))
+        if far:
+            unit = gen.unit_of("pdf", p)
+            if not same:
+                q = draw(gen.measure_params("pdf", Rq, D, kappa))
+                q = {"Sigma": np.asarray(q["Sigma"], float) * unit**2, "mu": np.asarray(q["mu"], float) * unit}
+            sd = float(np.sqrt(np.mean(np.linalg.eigvalsh(np.asarray(p["Sigma"], float)[0]))))
+            off = far * sd * draw(gen.arr((D,), 0.5, 1.5)) * np.where(draw(gen.arr((D,), -1, 1)) < 0, -1.0, 1.0)
+            p = {"Sigma": p["Sigma"], "mu": np.asarray(p["mu"], float) + off}
+            q = p if same else {"Sigma": q["Sigma"], "mu": np.asarray(q["mu"], float) + off}
+        return {"D": D, "Rp": Rp, "Rq": Rq, "same": same, "p": p, "q": q, "diag": draw(st.booleans()), "far": far}
     return s()
 
 
@@ -55,7 +67,8 @@ def _run_kl(case):
     ok, got = lib(fails, "entropy", lambda: p.entropy())
     if ok:
         check(fails, "entropy", got, H, Hs)
-    ok, got = lib(fails, "entropy_via_log_integral", lambda: -p.integrate("log u(x)", factor=p))
+    # (the information-form expectation legitimately loses |mu|^2/sigma^2 * eps: not judged in the far-mean regime)
+    ok, got = (False, None) if case.get("far") else lib(fails, "entropy_via_log_integral", lambda: -p.integrate("log u(x)", factor=p))
     if ok:
         kap = np.maximum(1.0, oracle.cond(Sp))
         check(fails, "entropy:minus_E_ln_p", got, H, Hs * kap)
@@ -89,7 +102,7 @@ def _nontrivial_kl(case):
 
 def _labels_kl(case):
     c = "(R,R)" if case["Rp"] == case["Rq"] else ("(1,n)" if case["Rp"] == 1 else "(n,1)")
-    return [f"combo={c}", f"same={case['same']}"]
+    return [f"combo={c}", f"same={case['same']}", f"far_mean={case.get('far', 0.0):g}"]
 
 
 def _extra(draw, case):
